@@ -3,25 +3,30 @@ package main
 import (
 	"bufio"
 	"encoding/json"
-	"fmt"
 	"go/build"
 	"go/build/constraint"
 	"io"
 	"os"
 	"strings"
 	"unicode"
+	"unicode/utf8"
 
+	"github.com/mmcloughlin/avo/attr"
 	avobuild "github.com/mmcloughlin/avo/build"
 	"github.com/mmcloughlin/avo/buildtags"
+	"github.com/mmcloughlin/avo/gotypes"
 	"github.com/mmcloughlin/avo/ir"
+	"github.com/mmcloughlin/avo/pass"
 	"github.com/mmcloughlin/avo/printer"
+	"github.com/mmcloughlin/avo/x86"
 )
 
 // C14: build constraints mean the same thing to avo and to the Go toolchain.
 //
 // Request families (see lean/AvoVerif/Drv/C14.lean for the encodings):
-//   tags / tags-ignore            exact: Validate, GoString, Format, Evaluate (all assignments),
-//                                 the toolchain's decision on the printed header, parse∘print
+//   tags / tags-ignore            exact: Validate, GoString, Evaluate (all assignments, invalid sets too), the CLASS of
+//                                 Format's result (error / no line / lines; the text is not compared), the
+//                                 toolchain's decision on the header avo printed, parse∘print
 //   accept-tags / -ignore         the property: toolchain (go/build/constraint on the header avo prints,
 //                                 go/build MatchFile on both printed files) == avo's Evaluate, header accepted,
 //                                 every constraint parses back from its printed form
@@ -30,7 +35,7 @@ import (
 //   parse / parseopt              ParseConstraint / ParseOption on well-formed and malformed text
 //   tcline                        measurement of the toolchain model: constraint.Parse of `// +build` lines
 //   ctx                           build.Context.ConstraintExpr sequences
-//   syntax                        the plusbuild/gobuild constants of the active syntax_go1xx.go
+//   accept-badutf8                a term that is not valid UTF-8 must be invalid
 
 type c14Formula [][][]string
 
@@ -242,6 +247,13 @@ type c14Stats struct {
 	TermRequests, ParseRequests, ParseErrors, TclineRequests, TclineNot  int
 	CtxRequests, BigFormulas, AvoValidCodepoints, ToolchainRejected      int
 	FormatEmptyForNonEmptySet                                            int
+	// judged accept-tags lines, Format errors, formulas with a header line near/over the 64 KiB scanner limit
+	Judged, FormatErrors, LongFormulas, LongOverLimit, LongUnderLimit int
+	LargeShapeFormulas, InvalidEvaluated, BadUTF8Terms              int
+	FileShapes                                                      map[string]int
+	MatchFileErrors, PrinterErrors                                  int
+	SyntaxPlus, SyntaxGo                                            bool
+	ParseJudged, CtxFormulas                                        int
 }
 
 type c14Run struct {
@@ -286,19 +298,6 @@ func (r *c14Run) formulaVariant(f c14Formula, ignore bool) {
 		return "0"
 	})
 	gs := c14Guard(func() string { return hexs(cs.GoString()) })
-	if valid != "1" {
-		r.o.emit("tags"+suffix+" "+ftok+" "+utok, "valid="+valid+" gs="+gs)
-		return
-	}
-	var header string
-	fmtTok := c14Guard(func() string {
-		h, err := buildtags.Format(cs)
-		if err != nil {
-			return "ERR"
-		}
-		header = h
-		return hexs(h)
-	})
 	ev := make([]byte, nassign)
 	evTok := c14Guard(func() string {
 		for i := 0; i < nassign; i++ {
@@ -306,6 +305,28 @@ func (r *c14Run) formulaVariant(f c14Formula, ignore bool) {
 		}
 		return string(ev)
 	})
+	if valid != "1" {
+		// Evaluate is defined on invalid sets too (an invalid term is false): compared exactly
+		r.st.InvalidEvaluated++
+		r.o.emit("tags"+suffix+" "+ftok+" "+utok, "valid="+valid+" gs="+gs+" ev="+evTok)
+		return
+	}
+	var header string
+	// the class of Format's result; the text itself is judged through the toolchain (tb=, accept-tags)
+	fmtTok := c14Guard(func() string {
+		h, err := buildtags.Format(cs)
+		if err != nil {
+			return "ERR"
+		}
+		header = h
+		if h == "" {
+			return "none"
+		}
+		return "lines"
+	})
+	if fmtTok == "ERR" {
+		r.st.FormatErrors++
+	}
 	// toolchain on the printed header
 	status := "ok"
 	var exprs []constraint.Expr
@@ -359,22 +380,31 @@ func (r *c14Run) formulaVariant(f c14Formula, ignore bool) {
 		"valid=1 gs="+gs+" fmt="+fmtTok+" ev="+evTok+" tb="+string(tb)+" rt="+rt)
 
 	// the property on the implementation's own outputs; the printed files of
-	// both printers are given to go/build.
-	file := ir.NewFile()
-	file.Constraints = cs
+	// both printers are given to go/build.  The file is a real one (functions,
+	// includes, docs; built by hand or through build.Context + pass.Compile):
+	// the shape is a function of the formula, so that a replay reproduces it.
+	shape := c14ShapeOf(ftok)
+	file, ferr := c14File(cs, shape)
+	r.st.FileShapes[itoa(shape)]++
 	cfg := printer.Config{Pkg: "p", Name: "avo"}
 	mg := make([]byte, nassign)
 	ma := make([]byte, nassign)
 	fill := func(dst []byte, name string, p printer.Printer) {
 		var content []byte
-		perr := c14Guard(func() string {
-			b, err := p.Print(file)
-			if err != nil {
-				return "err"
-			}
-			content = b
-			return ""
-		})
+		perr := ferr
+		if perr == "" {
+			perr = c14Guard(func() string {
+				b, err := p.Print(file)
+				if err != nil {
+					return "err"
+				}
+				content = b
+				return ""
+			})
+		}
+		if perr != "" {
+			r.st.PrinterErrors++
+		}
 		for i := range dst {
 			if perr != "" {
 				dst[i] = 'x'
@@ -382,6 +412,7 @@ func (r *c14Run) formulaVariant(f c14Formula, ignore bool) {
 			}
 			m, err := c14MatchFile(name, content, c14Assign(names, i, ignore))
 			if err != nil {
+				r.st.MatchFileErrors++
 				dst[i] = 'x'
 			} else {
 				dst[i] = c14Bit(m)
@@ -391,8 +422,92 @@ func (r *c14Run) formulaVariant(f c14Formula, ignore bool) {
 	fill(mg, "x.go", printer.NewStubs(cfg))
 	fill(ma, "x.s", printer.NewGoAsm(cfg))
 	r.st.Assignments += nassign
-	r.o.emit("accept-tags"+suffix+" valid=1 "+ftok+" "+utok+" ev="+evTok+" st="+status+
+	r.st.Judged++
+	r.o.emit("accept-tags"+suffix+" valid=1 "+ftok+" "+utok+" sh="+itoa(shape)+" hd="+fmtTok+" ev="+evTok+" st="+status+
 		" tc="+string(tb)+" mg="+string(mg)+" ma="+string(ma)+" rt="+string(rtBits), "ok")
+}
+
+// c14ShapeOf: which kind of file carries the constraints (a function of the
+// formula token only: FNV-1a).
+func c14ShapeOf(ftok string) int {
+	h := uint32(2166136261)
+	for i := 0; i < len(ftok); i++ {
+		h = (h ^ uint32(ftok[i])) * 16777619
+	}
+	return int(h>>8) % 4
+}
+
+// c14File builds the file the printers are given.
+//
+//	0: empty ir.NewFile()
+//	1: hand-built: two includes, two documented functions with signatures and a pragma
+//	2: the real pipeline: build.Context (constraints entered one by one through Context.Constraint,
+//	   a NOSPLIT function with an instruction) followed by pass.Compile (adds the textflag.h include)
+//	3: as 2 but the constraints are entered with Context.Constraints at the end and the function has no attributes
+func c14File(cs buildtags.Constraints, shape int) (file *ir.File, errs string) {
+	defer func() {
+		if r := recover(); r != nil {
+			file, errs = nil, "panic"
+		}
+	}()
+	switch shape {
+	case 0:
+		f := ir.NewFile()
+		f.Constraints = cs
+		return f, ""
+	case 1:
+		f := ir.NewFile()
+		f.Constraints = cs
+		f.Includes = []string{"textflag.h", "go_asm.h"}
+		for _, name := range []string{"f", "g"} {
+			fn := ir.NewFunction(name)
+			fn.Doc = []string{name + " does nothing."}
+			sig, err := gotypes.ParseSignature("func(x uint64) uint64")
+			if err != nil {
+				return nil, "sig"
+			}
+			fn.SetSignature(sig)
+			if name == "g" {
+				fn.AddPragma("noescape")
+			}
+			ret, err := x86.RET()
+			if err != nil {
+				return nil, "ret"
+			}
+			fn.AddInstruction(ret)
+			f.AddSection(fn)
+		}
+		return f, ""
+	default:
+		c := avobuild.NewContext()
+		if shape == 2 {
+			for _, k := range cs {
+				c.Constraint(k)
+			}
+		}
+		c.Function("f")
+		c.Doc("f is generated.")
+		if shape == 2 {
+			c.Attributes(attr.NOSPLIT)
+		}
+		c.SignatureExpr("func(x uint64) uint64")
+		ret, err := x86.RET()
+		if err != nil {
+			return nil, "ret"
+		}
+		c.Instruction(ret)
+		if shape == 3 {
+			c.Constraints(cs)
+		}
+		f, err := c.Result()
+		if err != nil {
+			return nil, "ctx"
+		}
+		if err := pass.Compile.Execute(f); err != nil {
+			return nil, "compile"
+		}
+		return f, ""
+	}
 }
 
 func c14HasSpaceOrComma(s string) bool {
@@ -405,6 +520,19 @@ func c14HasSpaceOrComma(s string) bool {
 }
 
 func (r *c14Run) term(t string) {
+	if !utf8.ValidString(t) {
+		// the protocol carries terms as text: for byte strings that are not UTF-8 only the
+		// statement "never valid" is judged (Go's range yields U+FFFD, which is no tag character)
+		r.st.BadUTF8Terms++
+		valid := c14Guard(func() string {
+			if buildtags.Term(t).Validate() == nil {
+				return "1"
+			}
+			return "0"
+		})
+		r.o.emit("accept-badutf8 "+hexs(t)+" avo="+valid, "ok")
+		return
+	}
 	r.st.TermRequests++
 	tm := buildtags.Term(t)
 	valid := c14Guard(func() string {
@@ -432,30 +560,77 @@ func (r *c14Run) term(t string) {
 	r.o.emit("accept-term "+hexs(t)+" avo="+valid+" tool="+tool, "ok")
 }
 
+// parseMeaning: when avo parses the text, the parsed constraint must mean what the
+// toolchain reads from the same text on a `// +build` line (all assignments of its words).
+func (r *c14Run) parseMeaning(kind, text string, c buildtags.Constraint) {
+	if strings.ContainsAny(text, "\n") || !utf8.ValidString(text) {
+		return
+	}
+	x, err := constraint.Parse("// +build " + text)
+	if err != nil {
+		// avo accepted a text the toolchain does not read as a constraint line
+		r.o.emit("accept-parse "+kind+" "+hexs(text)+" 0 avo=- tool=rejected", "ok")
+		return
+	}
+	var names []string
+	seen := map[string]bool{}
+	for _, f := range strings.Fields(text) {
+		for _, l := range strings.Split(f, ",") {
+			n := strings.TrimLeft(l, "!")
+			if n != "" && n != "ignore" && !seen[n] && len(names) < 5 {
+				seen[n] = true
+				names = append(names, n)
+			}
+		}
+	}
+	avo := make([]byte, 1<<uint(len(names)))
+	tool := make([]byte, len(avo))
+	avoTok := c14Guard(func() string {
+		for i := range avo {
+			v := c14Assign(names, i, false)
+			avo[i] = c14Bit(c.Evaluate(v))
+			tool[i] = c14Bit(x.Eval(func(t string) bool { return v[t] }))
+		}
+		return string(avo)
+	})
+	r.st.ParseJudged++
+	r.o.emit("accept-parse "+kind+" "+hexs(text)+" "+c14UniverseTok(names)+" avo="+avoTok+" tool="+string(tool), "ok")
+}
+
 func (r *c14Run) parse(text string) {
 	r.st.ParseRequests++
+	var parsed buildtags.Constraint
 	resp := c14Guard(func() string {
 		c, err := buildtags.ParseConstraint(text)
 		if err != nil {
 			r.st.ParseErrors++
 			return "err"
 		}
+		parsed = c
 		return "ok " + c14EncConstraint(c14FromConstraint(c))
 	})
 	r.o.emit("parse "+hexs(text), resp)
+	if strings.HasPrefix(resp, "ok ") {
+		r.parseMeaning("c", text, parsed)
+	}
 }
 
 func (r *c14Run) parseopt(text string) {
 	r.st.ParseRequests++
+	var parsed buildtags.Constraint
 	resp := c14Guard(func() string {
 		o, err := buildtags.ParseOption(text)
 		if err != nil {
 			r.st.ParseErrors++
 			return "err"
 		}
+		parsed = buildtags.Constraint{o}
 		return "ok " + c14EncConstraint(c14FromConstraint(buildtags.Constraint{o}))
 	})
 	r.o.emit("parseopt "+hexs(text), resp)
+	if strings.HasPrefix(resp, "ok ") && !c14HasSpaceOrComma(strings.ReplaceAll(text, ",", "")) {
+		r.parseMeaning("o", text, parsed)
+	}
 }
 
 // tcline measures the toolchain model on one comment line.
@@ -511,6 +686,16 @@ func (r *c14Run) ctx(exprs []string) {
 		return "errs=" + itoa(c.VerifErrCount()) + " cs=" + c14EncFormula(c14FromAvo(f.Constraints))
 	})
 	r.o.emit(strings.Join(req, " "), resp)
+	// a Context that reports no error holds a constraint set that must be valid (judged by the model's
+	// Validate), and that set goes through the whole formula check like a constructed one
+	if strings.HasPrefix(resp, "errs=0 cs=") {
+		ftok := strings.TrimPrefix(resp, "errs=0 cs=")
+		r.o.emit("accept-ctx "+ftok, "ok")
+		if fm, err := c14DecFormula(ftok); err == nil && len(fm) > 0 {
+			r.st.CtxFormulas++
+			r.formula(fm)
+		}
+	}
 }
 
 // ---------------------------------------------------------------- generation
@@ -555,20 +740,30 @@ func c14GenFormula(r *rng) c14Formula {
 	if r.chance(3, 20) {
 		invalidRate = r.rangeIn(1, 4)
 	}
-	weighted := func(zeroNum, zeroDen int) int {
+	// dimensions: usually up to 4 x 4 x 4; one formula in 12 is larger (up to 10 lines x 6 options x 6 terms,
+	// or few lines with up to 40 terms per option), still within the toolchain's limits
+	maxL, maxO, maxT := 4, 4, 4
+	if r.chance(1, 12) {
+		if r.chance(1, 2) {
+			maxL, maxO, maxT = 10, 6, 6
+		} else {
+			maxL, maxO, maxT = 2, 2, 40
+		}
+	}
+	weighted := func(zeroNum, zeroDen, max int) int {
 		if r.chance(zeroNum, zeroDen) {
 			return 0
 		}
-		return r.rangeIn(1, 4)
+		return r.rangeIn(1, max)
 	}
 	f := c14Formula{}
-	nl := weighted(1, 25)
+	nl := weighted(1, 25, maxL)
 	for i := 0; i < nl; i++ {
 		c := [][]string{}
-		no := weighted(1, 40)
+		no := weighted(1, 40, maxO)
 		for j := 0; j < no; j++ {
 			o := []string{}
-			nt := weighted(1, 70)
+			nt := weighted(1, 70, maxT)
 			for t := 0; t < nt; t++ {
 				var term string
 				if invalidRate > 0 && r.chance(invalidRate, 16) {
@@ -588,6 +783,157 @@ func c14GenFormula(r *rng) c14Formula {
 	return f
 }
 
+// ---- long lines: Format reads go/format's output with a 64 KiB bufio.Scanner (finding F8e)
+
+const c14ScanLimit = 65536
+
+// c14HeaderLen: the length of the `//go:build` line the TOOLCHAIN synthesises for
+// the formula (go/build/constraint on avo's documented `// +build` form); used
+// only to steer generated sizes to the boundary, never as an expectation.
+func c14HeaderLen(f c14Formula) (int, bool) {
+	var x constraint.Expr
+	for _, c := range f {
+		var opts []string
+		for _, o := range c {
+			opts = append(opts, strings.Join(o, ","))
+		}
+		e, err := constraint.Parse("// +build " + strings.Join(opts, " "))
+		if err != nil {
+			return 0, false
+		}
+		if x == nil {
+			x = e
+		} else {
+			x = &constraint.AndExpr{X: x, Y: e}
+		}
+	}
+	if x == nil {
+		return 0, false
+	}
+	return len("//go:build " + x.String()), true
+}
+
+func c14Filler(r *rng, bytes int) string {
+	if bytes <= 0 {
+		return ""
+	}
+	switch r.intn(3) {
+	case 0: // two-byte letters: the limit counts bytes, not characters
+		s := strings.Repeat("é", bytes/2)
+		if bytes%2 == 1 {
+			s += "q"
+		}
+		return s
+	case 1:
+		s := strings.Repeat("日", bytes/3)
+		return s + strings.Repeat("_", bytes%3)
+	}
+	return strings.Repeat("q", bytes)
+}
+
+// c14Lengthen grows a formula so that its header line lands at a chosen distance
+// from the scanner limit: either a fresh long tag on a line of its own (exact
+// target) or one existing tag name made longer wherever it occurs.
+func c14Lengthen(r *rng, f c14Formula) (c14Formula, bool) {
+	if len(f) == 0 {
+		return f, false
+	}
+	var target int
+	switch r.intn(8) {
+	case 0:
+		target = c14ScanLimit - 1
+	case 1:
+		target = c14ScanLimit
+	case 2:
+		target = c14ScanLimit - 2 + r.intn(4)
+	case 3, 4:
+		target = c14ScanLimit - 1 - r.intn(600)
+	case 5, 6:
+		target = c14ScanLimit + r.intn(600)
+	default:
+		target = 70000 + r.intn(3000)
+	}
+	g := c14Formula{}
+	for _, c := range f {
+		cc := [][]string{}
+		for _, o := range c {
+			cc = append(cc, append([]string{}, o...))
+		}
+		g = append(g, cc)
+	}
+	if r.chance(1, 2) {
+		pad := "zz"
+		if r.chance(1, 3) {
+			pad = "!zz"
+		}
+		g = append(g, [][]string{{pad}})
+		n, ok := c14HeaderLen(g)
+		if !ok || n >= target {
+			return f, false
+		}
+		g[len(g)-1][0][0] = pad + c14Filler(r, target-n)
+		return g, true
+	}
+	// lengthen one existing name
+	var names []string
+	for _, c := range g {
+		for _, o := range c {
+			for _, t := range o {
+				names = append(names, strings.TrimPrefix(t, "!"))
+			}
+		}
+	}
+	if len(names) == 0 {
+		return f, false
+	}
+	name := pick(r, names)
+	k := 0
+	for _, n := range names {
+		if n == name {
+			k++
+		}
+	}
+	n, ok := c14HeaderLen(g)
+	if !ok || n >= target || k > 24 {
+		return f, false
+	}
+	fill := c14Filler(r, (target-n+k-1)/k)
+	for _, c := range g {
+		for _, o := range c {
+			for i, t := range o {
+				if strings.TrimPrefix(t, "!") == name {
+					o[i] = t + fill
+				}
+			}
+		}
+	}
+	return g, true
+}
+
+// c14LongFormulas: hand-picked sizes at the scanner limit (in every tier).
+func c14LongFormulas() []c14Formula {
+	rep := strings.Repeat
+	line := func(n int, t string) [][]string { return [][]string{c14Repeat(n, []string{t})} }
+	var ten c14Formula
+	for i := 0; i < 10; i++ {
+		ten = append(ten, line(100, rep("b", 62)))
+	}
+	complexLong := c14Repeat(102, []string{"a", "!b", "c"})
+	complexLong[50] = rep("a", 70000)
+	return []c14Formula{
+		{{{rep("a", 65524)}}},       // `//go:build ` + 65524 = 65535 bytes: the longest line Format can read
+		{{{rep("a", 65525)}}},       // 65536 bytes: bufio.Scanner: token too long
+		{{{rep("a", 70000)}}},       // the reviewer's witness
+		{{{"!" + rep("b", 65523)}}}, // 65535
+		{{{"!" + rep("b", 65524)}}}, // 65536
+		{{{rep("é", 32762)}}},       // 32762 characters, 65524 bytes: fine
+		{{{rep("é", 32762) + "x"}}}, // 32763 characters, 65525 bytes: too long (bytes count, not characters)
+		ten,                         // no long tag at all: 1000 tags of 62 bytes, header 66 007 bytes
+		{{{"a", rep("c", 40000)}, {rep("c", 40000), "!a"}}}, // the same long tag twice on one line
+		{{complexLong}}, // F8c shape (no header synthesised): the `// +build` line itself is too long
+	}
+}
+
 func c14Hist(m map[string]int, n int) {
 	m[itoa(n)]++
 }
@@ -600,6 +946,20 @@ func (r *c14Run) account(f c14Formula) {
 	}
 	c14Hist(st.Lines, len(f))
 	hasE, hasN, uni, neg := false, false, false, false
+	large := len(f) > 4
+	for _, c := range f {
+		if len(c) > 4 {
+			large = true
+		}
+		for _, o := range c {
+			if len(o) > 4 {
+				large = true
+			}
+		}
+	}
+	if large {
+		st.LargeShapeFormulas++
+	}
 	for _, c := range f {
 		c14Hist(st.Options, len(c))
 		if len(c) == 0 {
@@ -724,7 +1084,7 @@ func init() {
 			return err
 		}
 		defer o.close()
-		st := &c14Stats{Lines: map[string]int{}, Options: map[string]int{}, Terms: map[string]int{}, Universe: map[string]int{}}
+		st := &c14Stats{Lines: map[string]int{}, Options: map[string]int{}, Terms: map[string]int{}, Universe: map[string]int{}, FileShapes: map[string]int{}}
 		run := &c14Run{o: o, st: st}
 		if *f.replay != "" {
 			if err := run.replay(*f.replay); err != nil {
@@ -733,8 +1093,9 @@ func init() {
 			return writeJSON(*f.stats, st)
 		}
 
-		// constants of the active syntax file
-		o.emit("syntax", fmt.Sprintf("plus=%c go=%c", c14Bit(buildtags.PlusBuildSyntaxSupported()), c14Bit(buildtags.GoBuildSyntaxSupported())))
+		// constants of the active syntax file: recorded, not judged (their effect is judged on every
+		// formula through the toolchain's reading of what Format prints)
+		st.SyntaxPlus, st.SyntaxGo = buildtags.PlusBuildSyntaxSupported(), buildtags.GoBuildSyntaxSupported()
 
 		// avo's valid one-character terms over all code points
 		rs := c14RuneRanges(func(c rune) bool {
@@ -777,6 +1138,19 @@ func init() {
 			st.BigFormulas++
 			run.formula(fm)
 		}
+		long := func(fm c14Formula) {
+			st.LongFormulas++
+			if n, ok := c14HeaderLen(fm); ok && n >= c14ScanLimit {
+				st.LongOverLimit++
+			} else if ok {
+				st.LongUnderLimit++
+			}
+		}
+		for _, fm := range c14LongFormulas() {
+			long(fm)
+			run.account(fm)
+			run.formula(fm)
+		}
 
 		// term stream: every fixed/invalid term, boundary characters, random names
 		seenTerm := map[string]bool{}
@@ -795,6 +1169,12 @@ func init() {
 			addTerm("!" + t)
 			addTerm("!!" + t)
 		}
+		for _, t := range []string{"a\xffb", "\xc3", "a\xed\xa0\x80", "!\xfe", "\xf8\x88\x80\x80\x80"} {
+			run.term(t) // not UTF-8
+		}
+		addTerm(strings.Repeat("a", 70000))
+		addTerm("!" + strings.Repeat("é", 40000))
+		addTerm(strings.Repeat("a", 66000) + "-")
 		for i, x := range rs { // both sides of range boundaries of the character table
 			if i%7 != int(*f.seed%7) && *f.tier == "quick" {
 				continue
@@ -809,14 +1189,23 @@ func init() {
 		// generated formulas
 		var bodies []string
 		var lines []string
+		randomLong, longBodies := 0, 0
 		for k := 0; k < *f.n; k++ {
 			fm := c14GenFormula(r)
+			// about one formula in 300 (at most 40 per run, the lines are large) is grown to the scanner limit
+			if randomLong < 40 && r.chance(1, 300) {
+				if g, ok := c14Lengthen(r, fm); ok {
+					fm = g
+					randomLong++
+					long(fm)
+				}
+			}
 			run.account(fm)
 			run.formula(fm)
 			for _, c := range fm {
 				for _, o := range c {
 					for _, t := range o {
-						if len(seenTerm) < 4000 {
+						if len(seenTerm) < 4000 && len(t) < 1000 {
 							addTerm(t)
 						}
 					}
@@ -825,6 +1214,12 @@ func init() {
 			if k%4 == 0 {
 				for _, c := range c14ToAvo(fm) {
 					line := strings.TrimSuffix(c.GoString(), "\n")
+					if len(line) > 4096 {
+						if longBodies >= 3 {
+							continue
+						}
+						longBodies++
+					}
 					lines = append(lines, line)
 					bodies = append(bodies, strings.TrimPrefix(line, "// +build"))
 				}
@@ -934,8 +1329,25 @@ func (r *c14Run) replay(path string) error {
 					r.formula(f)
 				}
 			}
-		case "term", "accept-term":
+		case "term", "accept-term", "accept-badutf8":
 			r.term(arg(1))
+		case "accept-parse":
+			if len(ts) > 2 && ts[1] == "o" {
+				r.parseopt(arg(2))
+			} else {
+				r.parse(arg(2))
+			}
+		case "accept-ctx":
+			// the sequence is not part of this line (the `ctx` line before it is): re-enter the resulting lines as text
+			if len(ts) > 1 {
+				if f, err := c14DecFormula(ts[1]); err == nil {
+					var es []string
+					for _, c := range c14ToAvo(f) {
+						es = append(es, strings.TrimPrefix(strings.TrimSuffix(c.GoString(), "\n"), "// +build"))
+					}
+					r.ctx(es)
+				}
+			}
 		case "parse":
 			r.parse(arg(1))
 		case "parseopt":
